@@ -108,3 +108,16 @@ Theorem C14_tree_iter_is_naive_folding_partial :
     by_level i (tree_iter chs (concat bs)) = nth (i - 1) (fold_tree chs (concat bs)) [].
 Proof. exact @tree_iter_is_naive_folding. Qed.
 Print Assumptions C14_tree_iter_is_naive_folding_partial.
+
+(* ... and on a stream of ANY other length (not a multiple of 2^depth): init_stack pre-seeds the stack as if the missing front
+   coefficients were zeros already read, and the iterator emits the naive foldings of the zero-padded stream without the leading
+   items that come from the padding alone - every one of them zero.  With the theorem above this covers every stream length,
+   every depth and every challenge list *)
+From PC Require Import Proofs.StreamIterPad.
+Theorem C14_tree_iter_is_naive_folding_padded :
+  forall (FO : FieldOps) (FL : FieldLaws FO) chs coeffs i,
+    (length coeffs mod 2 ^ length chs <> 0)%nat -> (1 <= i)%nat -> (i <= length chs)%nat ->
+    exists zs, Forall (fun x => x = f0) zs /\
+               nth (i - 1) (fold_tree chs coeffs) [] = zs ++ by_level i (tree_iter chs coeffs).
+Proof. exact @tree_iter_is_naive_folding_padded. Qed.
+Print Assumptions C14_tree_iter_is_naive_folding_padded.
